@@ -273,8 +273,57 @@ def finalize(T, term):
     raise ValueError(T)
 
 
+def shadow_terms():
+    """A name bound by one quantifier that also occurs free elsewhere under an enclosing quantifier."""
+    y, x = ('var', 'y'), ('var', 'x')
+    inner = lambda qk: ('q', qk, 'y', own('ys'), binop('=', y, x))  # noqa: E731  binds y, uses the outer x
+    free_uses = {
+        'operand': lambda: binop('=', y, x),
+        'set-element': lambda: binop('in', x, ('set', (y, ONE))),
+        'range-bound': lambda: binop('in', x, ('range', ZERO, y, False, False)),
+        'call-argument': lambda: binop('>', ('call', 'abs', y), x),
+        'index': lambda: binop('=', ('index', own('zs'), y), x),
+        'nested-quantifier-domain': lambda: ('q', 'exists', 'k', ('set', (y, ONE)), binop('=', ('var', 'k'), x)),
+    }
+    for qk1 in ('forall', 'exists'):
+        for qk2 in ('forall', 'exists'):
+            for name, mk in free_uses.items():
+                for op in ('or', 'and', 'implies'):
+                    # free use to the right / left of the inner binder, inside the outer body
+                    yield f'body-{name}', ('q', qk1, 'x', own('xs'), binop(op, inner(qk2), mk()))
+                    yield f'body-{name}-l', ('q', qk1, 'x', own('xs'), binop(op, mk(), inner(qk2)))
+            # free use in the domain of the outer quantifier
+            yield 'domain-set', ('q', qk1, 'x', ('set', (y, ONE)), inner(qk2))
+            yield 'domain-range', ('q', qk1, 'x', ('range', ZERO, y, False, True), inner(qk2))
+            # free use outside both
+            yield 'outside', binop('and', ('q', qk1, 'x', own('xs'), inner(qk2)), binop('>', y, ZERO))
+            # three levels: the free use sits under two binders of other names
+            yield 'deep', ('q', qk1, 'x', own('xs'), ('q', 'forall', 'w', own('ws'), binop('or', binop('and', inner(qk2), binop('=', ('var', 'w'), x)), binop('=', y, ('var', 'w')))))
+
+
 def run_table(ctx):
     n = 0
+    for label, term in shadow_terms():
+        text = mast.render(term)
+        for kind in ('expression', 'condition', 'predicate'):
+            inp = {'kind': kind, 'text': text if kind != 'predicate' else mast.render(('pred', term))}
+            try:
+                a = sub_expr(inp)
+            except Violation as vi:
+                ctx.report(vi)
+                a = True
+            if a is None:
+                ctx.count('table:shadow-rejected-by-parser')
+                continue
+            ctx.case((kind, inp['text']), True, 'table:shadowing', sample=inp['text'] if label == 'deep' and kind == 'condition' else None)
+            # every sub-tree as well
+            if a is not True:
+                for node in astx.preorder(a):
+                    if astx.is_expr(node) and astx.cname(node) in ('HplQuantifier', 'HplBinaryOperator'):
+                        try:
+                            check_queries(node, dict(inp, text=str(node)))
+                        except Violation as vi:
+                            ctx.report(vi)
     for label, T, term, depth in table_terms():
         cond = finalize(T, term)
         text = mast.render(cond)
